@@ -189,6 +189,7 @@ func (e *Env) toArg(a any, pt reflect.Type) (reflect.Value, bool) {
 // Cfg selects which known genuine defects of the generated code the mutator may trigger.
 // Default (all false): every one of them is avoided.
 type Cfg struct {
+	NegZeroHeavy      bool // flip the sign of zeros most of the time (focused runs)
 	AllowNegZero      bool // (a) float set where old==new numerically but the bits differ (+0/-0)
 	AllowRevealArray  bool // (b) more than one length change per array/multimap node between Writes
 	AllowRevealOneof  bool // (c) more than one type change per oneof node between Writes
@@ -529,11 +530,20 @@ func (st *State) Exec(root reflect.Value, c *Call) (status int) {
 		return ExecSkipped
 	}
 	m.Call(args)
-	if st.Cfg.AllowNegZero && !st.unguarded && (c.Tag == 'F' || c.Tag == 'T') && c.Get != "" {
+	if st.Cfg.AllowNegZero && (c.Tag == 'F' || c.Tag == 'T') && c.Get != "" {
 		if nv := args[len(args)-1]; nv.Kind() == reflect.Float64 {
 			if got, ok := getOld(node, c); ok && got.Kind() == reflect.Float64 &&
 				math.Float64bits(got.Float()) != math.Float64bits(nv.Float()) {
 				st.SetterDrops = append(st.SetterDrops, fmt.Sprintf("%s stored bits %x", FmtCall(c, map[*ObjSpec]bool{}), math.Float64bits(got.Float())))
+			}
+		}
+	}
+	if c.M == "CopyFromSlice" && len(args) == 1 && args[0].Type().Elem().Kind() == reflect.Float64 {
+		for i := 0; i < args[0].Len(); i++ {
+			got := call(node, "At", iv(i))[0].Float()
+			if want := args[0].Index(i).Float(); math.Float64bits(got) != math.Float64bits(want) {
+				st.SetterDrops = append(st.SetterDrops, fmt.Sprintf("%s element %d stored bits %x", FmtCall(c, map[*ObjSpec]bool{}), i, math.Float64bits(got)))
+				break
 			}
 		}
 	}
